@@ -101,6 +101,35 @@ def run_mutant(dst, m):
             open(p, "w", encoding="latin-1").write(s)
 
 
+def run_parallel(muts, workers=8):
+    """Run the variants on `workers` private scratch copies; returns {id: (verdict, detail)} in input order."""
+    import concurrent.futures
+    import queue
+    copies = queue.Queue()
+    made = []
+    n = max(1, min(workers, len(muts)))
+    for _ in range(n):
+        d, dst = make_copy()
+        made.append(d)
+        copies.put(dst)
+
+    def one(m):
+        dst = copies.get()
+        try:
+            try:
+                return m["id"], run_mutant(dst, m)
+            except KeyError as e:
+                return m["id"], ("anchor-missing", str(e))
+        finally:
+            copies.put(dst)
+    try:
+        with concurrent.futures.ThreadPoolExecutor(max_workers=n) as ex:
+            return dict(ex.map(one, muts))
+    finally:
+        for d in made:
+            shutil.rmtree(d, ignore_errors=True)
+
+
 def main(argv):
     keep = "--keep" in argv
     pids = [a.upper() for a in argv if not a.startswith("--")]
@@ -109,21 +138,14 @@ def main(argv):
         for m in muts:
             print(m["property"], m["id"], m["expect_rule"], m.get("expect_function"))
         return 0
-    d, dst = make_copy()
+    results = run_parallel(muts)
     res = {}
-    try:
-        for m in muts:
-            try:
-                verdict, detail = run_mutant(dst, m)
-            except KeyError as e:
-                verdict, detail = "anchor-missing", str(e)
-            res[m["id"]] = verdict
-            print("%-8s %-40s %s" % (m["property"], m["id"], verdict))
-            if verdict not in ("caught",) and detail:
-                print("    " + detail.replace("\n", "\n    ")[-2500:])
-    finally:
-        if not keep:
-            shutil.rmtree(d, ignore_errors=True)
+    for m in muts:
+        verdict, detail = results[m["id"]]
+        res[m["id"]] = verdict
+        print("%-8s %-40s %s" % (m["property"], m["id"], verdict))
+        if verdict not in ("caught",) and detail:
+            print("    " + detail.replace("\n", "\n    ")[-2500:])
     bad = [k for k, v in res.items() if v != "caught"]
     print("selftest: %d mutants, %d caught, %d not" % (len(res), len(res) - len(bad), len(bad)))
     return 1 if bad else 0
